@@ -900,7 +900,13 @@ unsafe fn hook_enter(
             sim.log.push(Ev::Enter { to_submit, min_complete, flags, timeout, res: -libc::EBADFD });
             return err(libc::EBADFD);
         }
-        submitted = if sim.flags & SETUP_SQPOLL != 0 { 0 } else { sim.submit(to_submit) };
+        submitted = if sim.flags & SETUP_SQPOLL != 0 {
+            // The kernel thread has taken whatever was published.
+            sim.submit(u32::MAX);
+            0
+        } else {
+            sim.submit(to_submit)
+        };
         sim.flush_overflow();
         sim.poison_released();
         if flags & ENTER_GETEVENTS == 0 || min_complete == 0 || sim.cq_ready() > 0 {
@@ -938,6 +944,9 @@ unsafe fn hook_enter(
         };
         let mut g = global();
         let sim = g.sims.iter_mut().rev().find(|s| s.fd == fd && !s.dead)?;
+        if sim.flags & SETUP_SQPOLL != 0 {
+            sim.submit(u32::MAX);
+        }
         sim.flush_overflow();
         let ready = sim.cq_ready() > 0;
         let (res, ret) = match action {
